@@ -549,7 +549,14 @@ def check_faults(ck, eng, requests):
             faulted = [n for n in o.state.notes if n[0] == 'raised-by']
             if name in PRIMS + ('query_statusbyte',) and faulted and not err_set:
                 ex = exemption_in_path(o.state.path)
-                if ex is None:
+                if ex is not None and name == 'query':
+                    # a query has a result to report: even for the reboot-style names a fault
+                    # must end as a recorded error and None (today: the empty reply is a timeout)
+                    unlatched = 'contains a serial exception (raised by %s, line %s) for the ' \
+                                'requests %s without recording an error; only a command, which ' \
+                                'has no reply to deliver, may ignore it' % (
+                                    faulted[0][1], faulted[0][2], sorted(ex))
+                elif ex is None:
                     unlatched = 'contains a serial exception (raised by %s, line %s) without ' \
                                 'recording an error' % (faulted[0][1], faulted[0][2])
                 elif not ex <= EXEMPT_NAMES:
